@@ -46,6 +46,7 @@ class Scheduler:
         self.max_steps = max_steps
         self.loop = None
         self.on_step = None      # optional callback(label) right before an action is performed
+        self.p_double = 0.0      # probability that a second awaitable completes a few loop iterations after the chosen one
 
     # -- registration
     def gate(self, label):
@@ -149,7 +150,32 @@ class Scheduler:
         else:
             fn = self.externals.pop(label)
             fn()
+        if self.p_double and self.rng is not None and self.rng.random() < self.p_double:
+            self._release_soon()
         return True
+
+    def _release_soon(self):
+        """Near-simultaneous completions: a second outstanding awaitable completes k loop iterations after the one just
+        released (two I/O completions landing in the same or in adjacent iterations), i.e. while the program is still
+        reacting to the first - an interleaving that one-action-per-idle-point scheduling cannot produce."""
+        cands = [l for l, f in self.gates.items() if not f.done() and not l.startswith('pull#') and (not self.freeze_gates)]
+        if not cands:
+            return
+        label = self.rng.choice(cands)
+        k = self.rng.randint(0, 14)
+
+        def later(n):
+            if n > 0:
+                self.loop.call_soon(later, n - 1)
+                return
+            fut = self.gates.get(label)
+            if fut is None or fut.done() or self.frozen or self.freeze_gates:
+                return
+            self.gates.pop(label)
+            self.step += 1
+            self.trace.append(f'{label}+{k}')
+            fut.set_result(None)
+        self.loop.call_soon(later, k)
 
 
 class Run:
